@@ -3,6 +3,7 @@ package sym
 import (
 	"bufio"
 	"fmt"
+	"os"
 	"io"
 	"math/big"
 	"os/exec"
@@ -248,6 +249,10 @@ func (s *Solver) checkRaw(script string, vars []*Term, timeoutMs int, wantModel 
 		names = only
 	}
 	t0 := time.Now()
+	if os.Getenv("GOSYM_PROF") == "all" {
+		fmt.Fprintf(os.Stderr, "%s checkRaw start names=%v timeout=%d script=%dB\n", t0.Format("15:04:05.000"), names, timeoutMs, len(script))
+		defer func() { fmt.Fprintf(os.Stderr, "%s checkRaw end %.2fs\n", time.Now().Format("15:04:05.000"), time.Since(t0).Seconds()) }()
+	}
 	ch := make(chan answer, len(names))
 	running := map[string]*proc{}
 	for _, n := range names {
@@ -263,7 +268,14 @@ func (s *Solver) checkRaw(script string, vars []*Term, timeoutMs int, wantModel 
 	var final answer
 	final.res = Unknown
 	got := 0
-	deadline := time.After(time.Duration(timeoutMs)*time.Millisecond + 3*time.Second)
+	grace := time.Duration(timeoutMs/2) * time.Millisecond
+	if grace < 300*time.Millisecond {
+		grace = 300 * time.Millisecond
+	}
+	if grace > 3*time.Second {
+		grace = 3 * time.Second
+	}
+	deadline := time.After(time.Duration(timeoutMs)*time.Millisecond + grace)
 	var errs []string
 loop:
 	for got < len(names) {
